@@ -51,6 +51,8 @@ try:
                        "tomtom": ["tests/test_annotate.py", "tests/test_seqlet.py"], "marginalize": ["tests/test_variant_effect.py"]}
                 for t in touched:
                     targets += dep.get(os.path.basename(t)[:-3], [])
+            if not targets:
+                targets = ["tests/test_ersatz.py", "tests/test_predict.py", "tests/test_marginalize.py"]
             t = subprocess.run(["/venv/bin/python", "-m", "pytest", "-q", "-p", "no:cacheprovider", "-x", "-n", "6",
                                 "--deselect", "tests/tools/test_cmd_tomtom.py", "-k", "not captum"] + sorted(set(targets)),
                                cwd=wt, env=env, capture_output=True, text=True, timeout=3600)
